@@ -16,7 +16,7 @@ from ..fa import FA
 from ..loader import AnalysisError
 from .valeq import check_typed_identity
 from .ladders import extract_ladder, check_ladder_order, repo_subclass_pairs
-from .c16 import (FlatInit, canon_conj, conds, ftext, is_copy_of, lit_expr, origin, same_def, single_def, strip_cast, _ref_name)
+from .c16 import (FlatInit, canon_conj, conds, fexpand, ftext, is_copy_of, lit_expr, map_shape, origin, same_def, single_def, strip_cast, _ref_name)
 
 AH = "reference.ArgumentHasher"
 FRA = "reference.FunctionReferenceWithArguments"
@@ -35,6 +35,38 @@ def _subject_is(fa, e, param):
         return False
 
 
+def _type_names(fa, t):
+    """the type names an isinstance() classinfo stands for: a type, a tuple of types (nested tuples flattened),
+    or the name of a local / module-level constant bound to such a tuple"""
+    if isinstance(t, ast.Tuple):
+        out = set()
+        for e in t.elts:
+            out |= _type_names(fa, e)
+        return out
+    if isinstance(t, ast.Name):
+        v = None
+        ids = fa.nodes(t)
+        if ids:
+            ds = fa.df.reaching(ids[0], t.id)
+            if len(ds) == 1 and ds[0].kind == "assign" and isinstance(ds[0].value, ast.Tuple):
+                v = ds[0].value
+            elif not ds:
+                mv = getattr(fa.fi.module, "assigns", {}).get(t.id)
+                if isinstance(mv, ast.Tuple):
+                    v = mv
+        if v is not None:
+            return _type_names(fa, v)
+    if isinstance(t, ast.Attribute) and isinstance(t.value, ast.Name) and fa.fi.cls is not None \
+            and t.value.id in ("self", "cls", fa.fi.cls.name):
+        # a constant of the function's own class
+        vals = [st.value for st in fa.fi.cls.node.body
+                if (isinstance(st, ast.Assign) and any(isinstance(x, ast.Name) and x.id == t.attr for x in st.targets))
+                or (isinstance(st, ast.AnnAssign) and isinstance(st.target, ast.Name) and st.target.id == t.attr and st.value is not None)]
+        if len(vals) == 1 and isinstance(vals[0], ast.Tuple):
+            return _type_names(fa, vals[0])
+    return {A.norm(t)}
+
+
 def _value_types(fa, param):
     """Every type the function tests its value parameter against, wherever the test is written (an `or`
     chain, a tuple, an if / elif ladder, guard clauses, a returned boolean expression): set of type names,
@@ -42,12 +74,39 @@ def _value_types(fa, param):
     out = set()
     for n in A.walk_body(fa.node):
         if isinstance(n, ast.Call) and isinstance(n.func, ast.Name) and n.func.id == "isinstance" and len(n.args) == 2 and _subject_is(fa, n.args[0], param):
-            t = n.args[1]
-            out |= {A.norm(e) for e in t.elts} if isinstance(t, ast.Tuple) else {A.norm(t)}
+            out |= _type_names(fa, n.args[1])
         elif isinstance(n, ast.Compare) and len(n.ops) == 1 and isinstance(n.ops[0], (ast.Is, ast.IsNot, ast.Eq, ast.NotEq)) \
                 and A.is_none(n.comparators[0]) and _subject_is(fa, n.left, param):
             out.add("None")
     return out
+
+
+def _validator_predicate(ck):
+    """The predicate validate_args applies to every value, found by what it does: the function (nested in
+    validate_args or at module level beside it) whose negative answer on a value is what the AssertionError
+    paths of validate_args are conditioned on."""
+    host = ck.repo.func("reference.validate_args")
+    fa = FA(ck, host)
+    seen = {}
+    for r in fa.stmts(ast.Raise):
+        if not fa.nodes(r):
+            continue
+        for conj in conds(fa, r):
+            for (t, p) in conj:
+                e, pol = lit_expr(t, p)
+                if isinstance(e, ast.Call) and isinstance(e.func, ast.Name) and not pol and len(e.args) == 1 and not e.keywords:
+                    seen.setdefault(e.func.id, set()).add(id(r))
+    cands = []
+    for name in seen:
+        fi = host.nested.get(name) or host.module.functions.get(name)
+        if fi is not None and len(fi.params) == 1:
+            cands.append(fi)
+    if len(cands) != 1:
+        # not conditioned on a call (the predicate was written out in place): the nested function, if there is one
+        vas = host.nested
+        cands = [vas["validate_arg"]] if "validate_arg" in vas else (list(vas.values()) if len(vas) == 1 else [])
+    ck.need(len(cands) == 1, "validate_args: the predicate that decides which values are admitted was not found")
+    return cands[0]
 
 
 def result_cases(fa):
@@ -128,6 +187,420 @@ def _existing_or_empty(es, existing):
     es = es if isinstance(es, list) else [es]
     lv = [A.norm(x) for e in es for x in _leaves(e)]
     return existing in lv and all(x == existing or x in ("()", "{}", "[]", "tuple()", "dict()", "list()") for x in lv)
+
+
+# ------------------------------------------------------------------------------------------------
+# how a tuple / a mapping is put together along the paths of a function (abstract evaluation, nothing is run)
+# ------------------------------------------------------------------------------------------------
+_NONE, _EMPTY, _FULL = "none", "empty", "nonempty"
+_ALL3 = frozenset((_NONE, _EMPTY, _FULL))
+
+
+class _PState:
+    __slots__ = ("env", "heap", "facts", "flaws")
+
+    def __init__(self, env, heap, facts, flaws):
+        self.env, self.heap, self.facts, self.flaws = env, heap, facts, flaws
+
+    def set(self, **kw):
+        st = _PState(self.env, self.heap, self.facts, self.flaws)
+        for k, v in kw.items():
+            setattr(st, k, v)
+        return st
+
+    def bind(self, name, val):
+        env = dict(self.env)
+        env[name] = val
+        return self.set(env=env)
+
+    def restrict(self, atom, allowed):
+        cur = self.facts.get(atom, _ALL3) & frozenset(allowed)
+        if not cur:
+            return None
+        facts = dict(self.facts)
+        facts[atom] = cur
+        return self.set(facts=facts)
+
+    def new_map(self, layers):
+        oid = len(self.heap)
+        heap = dict(self.heap)
+        heap[oid] = tuple(layers)
+        return ("map", oid), self.set(heap=heap)
+
+    def extend_map(self, oid, layers):
+        heap = dict(self.heap)
+        heap[oid] = heap[oid] + tuple(layers)
+        return self.set(heap=heap)
+
+    def flaw(self, what):
+        return self.set(flaws=self.flaws + (what,))
+
+
+class PathComposition:
+    """What the tuples and mappings of a function are made of, per path class.  The function is followed along its
+    acyclic paths from the entry to a target node with an environment of abstract values — ('atom', text): a value
+    the function did not build (text with the local names substituted away); ('seq', parts): a concatenation of such
+    values; ('map', id): a mapping created here, with the layers that were poured into it in order — and, per
+    atom, what the branch tests taken so far say about it (None / empty / non-empty): a test on such a value splits
+    the path, a test on anything else is taken both ways.  In-place changes of a mapping the function did not
+    create are recorded as flaws."""
+    MUTATORS = ("update", "setdefault", "pop", "popitem", "clear", "__setitem__", "__delitem__")
+
+    def __init__(self, fa, seed_env, cap=3000):
+        self.fa = fa
+        self.seed = seed_env
+        self.cap = cap
+        self._stmt = None
+
+    # ---- values
+    def atom_text(self, e, st):
+        env = st.env
+
+        class T(ast.NodeTransformer):
+            def visit_Name(self, n):
+                v = env.get(n.id)
+                if isinstance(n.ctx, ast.Load) and v is not None:
+                    txt = v[1] if v[0] == "atom" else (v[1][0] if v[0] == "seq" and len(v[1]) == 1 else None)
+                    if txt is not None and not txt.startswith(("?", "<")):
+                        try:
+                            return ast.parse(txt, mode="eval").body
+                        except SyntaxError:
+                            pass
+                    return ast.Name(id="<%s:%s>" % (v[0], n.id), ctx=ast.Load())
+                return n
+
+        import copy
+        return A.norm(T().visit(copy.deepcopy(strip_cast(e))))
+
+    @staticmethod
+    def parts(v):
+        return v[1] if v[0] == "seq" else ((v[1],) if v[0] == "atom" else ("?",))
+
+    @staticmethod
+    def layers(v, st):
+        return st.heap[v[1]] if v[0] == "map" else ((v[1],) if v[0] == "atom" else ("?",))
+
+    def ev(self, e, st):
+        """[(value, state)]"""
+        e = strip_cast(e)
+        if isinstance(e, ast.Name):
+            v = st.env.get(e.id)
+            return [(v if v is not None else ("atom", e.id), st)]
+        if isinstance(e, ast.NamedExpr) and isinstance(e.target, ast.Name):
+            return [(v, s2.bind(e.target.id, v)) for (v, s2) in self.ev(e.value, st)]
+        if isinstance(e, (ast.Tuple, ast.List)) and not e.elts:
+            return [(("seq", ()), st)]
+        if isinstance(e, ast.Call) and isinstance(e.func, ast.Name) and e.func.id in ("tuple", "list") and not e.keywords and len(e.args) <= 1:
+            if not e.args:
+                return [(("seq", ()), st)]
+            return [((("seq", self.parts(v)) if v[0] != "map" else ("atom", "?")), s2) for (v, s2) in self.ev(e.args[0], st)]
+        if isinstance(e, ast.BinOp) and isinstance(e.op, ast.Add):
+            out = []
+            for (l, s1) in self.ev(e.left, st):
+                for (r, s2) in self.ev(e.right, s1):
+                    out.append((("seq", self.parts(l) + self.parts(r)), s2))
+            return out
+        if isinstance(e, ast.BoolOp) and isinstance(e.op, ast.Or) and len(e.values) >= 2:
+            rest = e.values[1] if len(e.values) == 2 else ast.BoolOp(op=ast.Or(), values=e.values[1:])
+            out = []
+            for (v, s1) in self.ev(e.values[0], st):
+                for (truth, s2) in self.truth(v, s1):
+                    if truth:
+                        out.append((v, s2))
+                    else:
+                        out += self.ev(rest, s2)
+            return out
+        if isinstance(e, ast.IfExp):
+            out = []
+            for (truth, s1) in self.decide(e.test, st):
+                out += self.ev(e.body if truth else e.orelse, s1)
+            return out
+        # mappings: {} / dict() / {**a, **b} / dict(a) / dict(a, **b) / a.copy() / copy.copy(a) / a | b
+        pieces = None
+        if isinstance(e, ast.Dict):
+            pieces = [(None, v) if k is None else ("item", k) for k, v in zip(e.keys, e.values)]
+        elif isinstance(e, ast.Call) and isinstance(e.func, ast.Name) and e.func.id == "dict" and len(e.args) <= 1:
+            pieces = [(None, a) for a in e.args] + [(None, k.value) if k.arg is None else ("item", k) for k in e.keywords]
+        elif isinstance(e, ast.Call) and A.call_attr(e) in ("copy", "deepcopy") and is_copy_of(e) is not None:
+            pieces = [(None, is_copy_of(e))]
+        elif isinstance(e, ast.BinOp) and isinstance(e.op, ast.BitOr):
+            pieces = [(None, e.left), (None, e.right)]
+        if pieces is not None:
+            outs = [((), st)]
+            for (kind, x) in pieces:
+                nxt = []
+                for (ls, s1) in outs:
+                    if kind == "item":
+                        nxt.append((ls + ("?item",), s1))
+                    else:
+                        for (v, s2) in self.ev(x, s1):
+                            nxt.append((ls + self.layers(v, s2), s2))
+                outs = nxt
+            res = []
+            for (ls, s1) in outs:
+                m, s2 = s1.new_map(ls)
+                res.append((m, s2))
+            return res
+        return [(("atom", self.atom_text(e, st)), st)]
+
+    # ---- tests
+    def truth(self, v, st):
+        """[(bool, state)]: the truthiness of a value"""
+        key = None
+        if v[0] == "atom":
+            key = v[1]
+        elif v[0] == "seq":
+            if not v[1]:
+                return [(False, st)]
+            key = v[1][0] if len(v[1]) == 1 else None
+        elif v[0] == "map":
+            ls = st.heap[v[1]]
+            if not ls:
+                return [(False, st)]
+            key = ls[0] if len(ls) == 1 else None
+        if key is None or key.startswith("?"):
+            return [(True, st), (False, st)]
+        out = []
+        for (truth, allowed) in ((True, (_FULL,)), (False, (_NONE, _EMPTY))):
+            s2 = st.restrict(key, allowed)
+            if s2 is not None:
+                out.append((truth, s2))
+        return out
+
+    def _split(self, v, st, when_true, when_false=None):
+        """[(bool, state)] for a test that holds exactly when the value's state is in `when_true` (and, where the
+        test cannot be evaluated on every state — len(None) —, fails exactly on `when_false`)"""
+        key = v[1] if v[0] == "atom" else (v[1][0] if v[0] == "seq" and len(v[1]) == 1 else None)
+        if v[0] == "seq" and not v[1]:
+            return [(_EMPTY in when_true, st)]
+        if v[0] == "map":
+            ls = st.heap[v[1]]
+            if not ls:
+                return [(_EMPTY in when_true, st)]
+            if len(ls) == 1 and not ls[0].startswith("?") and _NONE not in when_true:
+                key = ls[0]     # a copy is empty exactly when what it copies is
+        if key is None or key.startswith("?"):
+            return [(True, st), (False, st)]
+        out = []
+        for (truth, allowed) in ((True, when_true), (False, when_false if when_false is not None else _ALL3 - frozenset(when_true))):
+            s2 = st.restrict(key, allowed)
+            if s2 is not None:
+                out.append((truth, s2))
+        return out
+
+    def decide(self, t, st):
+        """[(bool, state)]: the outcomes of a branch test"""
+        t = strip_cast(t)
+        if isinstance(t, ast.UnaryOp) and isinstance(t.op, ast.Not):
+            return [(not b, s) for (b, s) in self.decide(t.operand, st)]
+        if isinstance(t, ast.BoolOp):
+            is_and = isinstance(t.op, ast.And)
+            cur = [(is_and, st)]
+            for v in t.values:
+                nxt = []
+                for (b, s) in cur:
+                    if b != is_and:
+                        nxt.append((b, s))      # short-circuited
+                    else:
+                        nxt += self.decide(v, s)
+                cur = nxt
+            return cur
+        if isinstance(t, ast.Call) and isinstance(t.func, ast.Name) and t.func.id == "bool" and len(t.args) == 1 and not t.keywords:
+            return self.decide(t.args[0], st)
+        if isinstance(t, ast.Compare) and len(t.ops) == 1:
+            op, l, r = t.ops[0], t.left, t.comparators[0]
+            if isinstance(op, (ast.Is, ast.IsNot, ast.Eq, ast.NotEq)) and (A.is_none(r) or A.is_none(l)):
+                x = l if A.is_none(r) else r
+                pos = isinstance(op, (ast.Is, ast.Eq))
+                out = []
+                for (v, s1) in self.ev(x, st):
+                    out += [(b if pos else not b, s2) for (b, s2) in self._split(v, s1, (_NONE,))]
+                return out
+            # len(x) <op> 0 / 1
+            def len_of(a):
+                return a.args[0] if isinstance(a, ast.Call) and isinstance(a.func, ast.Name) and a.func.id == "len" and len(a.args) == 1 else None
+            x, c, o = len_of(l), r, op
+            if x is None and len_of(r) is not None:
+                x, c = len_of(r), l
+                o = {ast.Lt: ast.Gt, ast.Gt: ast.Lt, ast.LtE: ast.GtE, ast.GtE: ast.LtE}.get(type(op), type(op))()
+            if x is not None and isinstance(c, ast.Constant) and c.value in (0, 1):
+                empty_when = {(ast.Eq, 0): True, (ast.NotEq, 0): False, (ast.Gt, 0): False, (ast.LtE, 0): True, (ast.GtE, 1): False, (ast.Lt, 1): True}.get((type(o), c.value))
+                if empty_when is not None:
+                    out = []
+                    for (v, s1) in self.ev(x, st):
+                        # (len() of None raises: no path continues from there)
+                        out += [(b if empty_when else not b, s2) for (b, s2) in self._split(v, s1, (_EMPTY,), (_FULL,))]
+                    return out
+            # x == () / x != {} ...
+            if isinstance(op, (ast.Eq, ast.NotEq)):
+                for (x, c) in ((l, r), (r, l)):
+                    if A.norm(c) in ("()", "[]", "{}", "tuple()", "list()", "dict()"):
+                        out = []
+                        for (v, s1) in self.ev(x, st):
+                            out += [(b if isinstance(op, ast.Eq) else not b, s2) for (b, s2) in self._split(v, s1, (_EMPTY,))]
+                        return out
+            return [(True, st), (False, st)]
+        if isinstance(t, (ast.Name, ast.Attribute, ast.Call, ast.NamedExpr, ast.IfExp, ast.Subscript)):
+            out = []
+            for (v, s1) in self.ev(t, st):
+                out += self.truth(v, s1)
+            return out
+        if isinstance(t, ast.Constant):
+            return [(bool(t.value), st)]
+        return [(True, st), (False, st)]
+
+    # ---- statements
+    def _mutate(self, recv, layers_of_args, st, what):
+        out = []
+        for (v, s1) in self.ev(recv, st):
+            if v[0] == "map":
+                out.append(s1.extend_map(v[1], layers_of_args(s1)))
+            else:
+                out.append(s1.flaw((what, v[1] if v[0] == "atom" else "?", self._stmt)))
+        return out
+
+    def step(self, a, st):
+        """the states after statement `a`"""
+        self._stmt = a
+        if isinstance(a, (ast.Assign, ast.AnnAssign)):
+            if getattr(a, "value", None) is None:
+                return [st]
+            targets = a.targets if isinstance(a, ast.Assign) else [a.target]
+            if len(targets) == 1 and isinstance(targets[0], (ast.Tuple, ast.List)) and isinstance(a.value, (ast.Tuple, ast.List)) \
+                    and len(targets[0].elts) == len(a.value.elts) and all(isinstance(x, ast.Name) for x in targets[0].elts):
+                cur = [([], st)]
+                for x in a.value.elts:
+                    cur = [(vs + [v], s2) for (vs, s1) in cur for (v, s2) in self.ev(x, s1)]
+                out = []
+                for (vs, s1) in cur:
+                    for (tn, v) in zip(targets[0].elts, vs):
+                        s1 = s1.bind(tn.id, v)
+                    out.append(s1)
+                return out
+            out = []
+            for (v, s1) in self.ev(a.value, st):
+                for t in targets:
+                    if isinstance(t, ast.Name):
+                        s1 = s1.bind(t.id, v)
+                    elif isinstance(t, ast.Subscript):
+                        s1 = self._mutate(t.value, lambda s_: ("?item",), s1, "item assignment")[0]
+                    elif isinstance(t, (ast.Tuple, ast.List)):
+                        for x in ast.walk(t):
+                            if isinstance(x, ast.Name):
+                                s1 = s1.bind(x.id, ("atom", "?"))
+                out.append(s1)
+            return out
+        if isinstance(a, ast.AugAssign):
+            if isinstance(a.target, ast.Name):
+                cur = st.env.get(a.target.id, ("atom", a.target.id))
+                if isinstance(a.op, ast.Add):
+                    return [s1.bind(a.target.id, ("seq", self.parts(cur) + self.parts(v))) for (v, s1) in self.ev(a.value, st)]
+                if isinstance(a.op, ast.BitOr):
+                    out = []
+                    for (v, s1) in self.ev(a.value, st):
+                        out += self._mutate(a.target, lambda s_, v=v: self.layers(v, s_), s1, "|=")
+                    return out
+                return [st.bind(a.target.id, ("atom", "?"))]
+            if isinstance(a.target, ast.Subscript):
+                return self._mutate(a.target.value, lambda s_: ("?item",), st, "item assignment")
+            return [st]
+        if isinstance(a, ast.Delete):
+            out = [st]
+            for t in a.targets:
+                if isinstance(t, ast.Subscript):
+                    out = [s2 for s1 in out for s2 in self._mutate(t.value, lambda s_: ("?item",), s1, "del")]
+            return out
+        if isinstance(a, ast.Expr) and isinstance(a.value, ast.Call) and isinstance(a.value.func, ast.Attribute) and a.value.func.attr in self.MUTATORS:
+            c = a.value
+            if c.func.attr == "update" and len(c.args) + len(c.keywords) == 1 and (c.args or c.keywords[0].arg is None):
+                src = c.args[0] if c.args else c.keywords[0].value
+                out = []
+                for (v, s1) in self.ev(src, st):
+                    out += self._mutate(c.func.value, lambda s_, v=v: self.layers(v, s_), s1, "update")
+                return out
+            return self._mutate(c.func.value, lambda s_: ("?item",), st, c.func.attr)
+        return [st]
+
+    def at(self, target, exprs):
+        """[(values of `exprs` at CFG node `target`, state)] over the path classes from the entry; None when
+        there are too many"""
+        fa, cfg = self.fa, self.fa.cfg
+        results = []
+        count = [0]
+        can = {n.id for n in cfg.nodes if target in cfg.reach([n.id])}
+
+        def go(n, onpath, st):
+            if count[0] > self.cap:
+                return
+            if n == target:
+                count[0] += 1
+                cur = [([], st)]
+                for x in exprs:
+                    cur = [(vs + [v], s2) for (vs, s1) in cur for (v, s2) in self.ev(x, s1)]
+                results.extend(cur)
+                return
+            nd = cfg.node(n)
+            edges = [(d, l) for (d, l) in cfg.succ[n] if l != "exc" and d in can and d not in onpath]
+            if nd.kind == "test":
+                loop = isinstance(fa.pm.get(nd.ast), ast.While)
+                for (b, s1) in ([(True, st), (False, st)] if loop else self.decide(nd.ast, st)):
+                    for (d, l) in edges:
+                        if l == ("T" if b else "F"):
+                            onpath.add(d)
+                            go(d, onpath, s1)
+                            onpath.discard(d)
+                return
+            states = [st]
+            if nd.kind == "stmt" and nd.ast is not None:
+                states = self.step(nd.ast, st)
+            elif nd.kind in ("for", "with", "except") and nd.ast is not None:
+                bound = nd.ast.target if nd.kind == "for" else None
+                names = [x.id for x in ast.walk(bound) if isinstance(x, ast.Name)] if bound is not None else []
+                if nd.kind == "with":
+                    names = [x.id for it in nd.ast.items if it.optional_vars is not None for x in ast.walk(it.optional_vars) if isinstance(x, ast.Name)]
+                for nm in names:
+                    st = st.bind(nm, ("atom", "?"))
+                states = [st]
+            for s1 in states:
+                for (d, l) in edges:
+                    onpath.add(d)
+                    go(d, onpath, s1)
+                    onpath.discard(d)
+
+        st0 = _PState({}, {}, {}, ())
+        for name, v in self.seed.items():
+            if v[0] == "newmap":
+                v, st0 = st0.new_map(v[1])
+            st0 = st0.bind(name, v)
+        go(cfg.entry, {cfg.entry}, st0)
+        return None if count[0] > self.cap else results
+
+
+def _partial_accumulates(pa, call, e_args, e_kwargs, varg, kwarg, XA, XK):
+    """On every path to the clone, the positional partials handed over are the existing ones followed by the new ones
+    and the keyword partials are the existing ones overlaid with the new ones, in a mapping of the function's own —
+    the existing ones may be left out only where the path has established that there are none; no mapping the
+    function did not create is changed in place.  Decided on the composition per path class, however it is spelled
+    (`x or ()` then `+=`, an if statement per case, copy-then-update, `{**a, **b}`, ...)."""
+    V, KW = "<new positional>", "<new keyword>"
+    pc = PathComposition(pa, {varg: ("seq", (V,)), kwarg: ("newmap", (KW,))})
+    ok = True
+    n = 0
+    for at in pa.nodes(call):
+        res = pc.at(at, [e_args, e_kwargs])
+        if res is None:
+            return False
+        for ((va, vk), st) in res:
+            n += 1
+            def made_of(got, want):
+                # `got` is `want` in order; an element may be left out where the path has established it is empty
+                left_out = [w for w in want if w not in got]
+                return [g for g in got] == [w for w in want if w in got] and all(st.facts.get(w, _ALL3) <= {_NONE, _EMPTY} for w in left_out)
+
+            ok = ok and made_of(pc.parts(va) if va[0] in ("seq", "atom") else ("?",), (XA, V))
+            ok = ok and made_of(pc.layers(vk, st) if vk[0] == "map" else ("?",), (XK, KW))
+            ok = ok and not st.flaws
+    return ok and n >= 1
 
 
 def _out_literals(node):
@@ -211,9 +684,7 @@ def check(ck):
             lib_writer = lib_writer and okl
             n_canon += 1
     lib_writer = lib_writer and n_canon >= 1
-    vas = ck.repo.func("reference.validate_args").nested
-    va = vas.get("validate_arg") or (list(vas.values())[0] if len(vas) == 1 else None)
-    ck.need(va is not None, "validate_args.validate_arg not found")
+    va = _validator_predicate(ck)
     vfa = FA(ck, va)
     ck.need(bool(vfa.fi.params), "validate_args.validate_arg takes no value")
     val_types = _value_types(vfa, vfa.fi.params[0])
@@ -262,8 +733,8 @@ def check(ck):
                         tags_in.add(A.const_str(b))
             elif isinstance(op, (ast.In, ast.NotIn)) and isinstance(r, (ast.Tuple, ast.List, ast.Set)) and tag_read(l, at):
                 tags_in |= {A.const_str(x) for x in r.elts if A.const_str(x) is not None}
-    ck.ob(R1, dec.key(None, "tags"), tags_out == tags_in and {"datetime", "date", "FunctionReference"} <= tags_out, "type tags agree: %s" % sorted(tags_out) if tags_out == tags_in else
-          "type tags differ: encoder emits %s, decoder handles %s" % (sorted(tags_out), sorted(tags_in)), dec.where())
+    ck.ob(R1, dec.key(None, "tags"), tags_out == tags_in and {"datetime", "date", "FunctionReference"} <= tags_out, "type tags agree: %s" % sorted(tags_out, key=str) if tags_out == tags_in else
+          "type tags differ: encoder emits %s, decoder handles %s (None: a tag that is not a literal)" % (sorted(tags_out, key=str), sorted(tags_in, key=str)), dec.where())
     keys_in = set()
     for n in A.walk_body(dec.node):
         if isinstance(n, ast.Subscript) and A.const_str(n.slice) and _subject_is(dec, n.value, DP):
@@ -372,7 +843,8 @@ def check(ck):
     okk = lib_writer
     for c in good:
         par = pm.get(c)
-        while isinstance(par, ast.Call) and A.call_attr(par) in ("list", "tuple") and par.args == [c]:
+        # (a dict built from the sorted items keeps their order)
+        while isinstance(par, ast.Call) and A.call_attr(par) in ("list", "tuple", "dict", "OrderedDict") and par.args == [c] and not par.keywords:
             c, par = par, pm.get(par)
         tgt = None
         scope = None
@@ -385,6 +857,8 @@ def check(ck):
             nm = par.targets[0].id
             for n_ in A.walk_body(nj.node):
                 it = n_.iter if isinstance(n_, (ast.comprehension, ast.For)) else None
+                if isinstance(it, ast.Call) and A.call_attr(it) in ("items", "keys") and not it.args and isinstance(A.call_recv(it), ast.Name):
+                    it = A.call_recv(it)
                 if isinstance(it, ast.Name) and it.id == nm:
                     tgt, scope = n_.target, (pm.get(n_) if isinstance(n_, ast.comprehension) else n_)
         if tgt is None or scope is None:
@@ -483,7 +957,7 @@ def check(ck):
         ok = normalised_field(ini, field, src)
         ck.ob(R3, ini.key(None, "normalised-" + field), ok, "self.%s holds the normalised values" % field if ok else
               "self.%s is stored without ArgumentHasher.normalize: the body sees other values than the key was computed from" % field, ini.where())
-    ek, hk = fl.ek, fl.hk
+    ek = fl.ek
     # every read of the normalised fields (and every helper left as a call) sees their final values
     okE = ek is not None
     for n_ in A.walk_body(ini.node):
@@ -523,12 +997,16 @@ def check(ck):
         return out
 
     ek_muts = mutations(ini, ek) if ek is not None else []
-    okC = fl.hash_call is not None and hk is not None and ek is not None
+    hks = fl.hks
+    okC = fl.hash_call is not None and bool(hks) and ek is not None
     if okC:
-        src = is_copy_of(hk.value)
-        okC = same_def(hk, ek) or (src is not None and same_def(origin(ini, src, hk.node), ek))
+        # in every case the hash input is the effective kwargs or starts as a copy of them
+        late_from = []
+        for h in hks:
+            sh = map_shape(h.value)
+            okC = okC and (same_def(h, ek) or (sh is not None and sh[0] is not None and same_def(origin(ini, sh[0], h.node), ek)))
+            late_from.append(h.node if not same_def(h, ek) else fl.hash_at)
         # the mapping is complete when the hash (input) is taken
-        late_from = [hk.node] if not same_def(hk, ek) else [fl.hash_at]
         after = ini.cfg.reach(late_from, include_start=False)
         okC = okC and not any(set(ids) & after for (s, ids) in ek_muts)
     ck.ob(R3, ini.key(None, "hash-after-effective"), bool(okC), "the hash is computed from the effective kwargs (+ context args)" if okC else
@@ -545,27 +1023,86 @@ def check(ck):
                 os_ = [origin(hfa, r.value, hfa.nodes(r)[0]) for r in hfa.returns() if hfa.nodes(r) and r.value is not None]
                 if os_ and all(same_def(os_[0], o) for o in os_):
                     bfa, bek = hfa, os_[0]
-    ek_muts = mutations(bfa, bek) if bek is not None else []
     CE_Q = FRA + "._compute_effective_kwargs"
     where_ce = bfa.where(bek.stmt) if bek is not None and bek.stmt is not None else bfa.where()
     ck.ob(R3, CE_Q + "::returns-result", bek is not None, "the bound mapping is returned" if bek is not None else "the bound mapping is not what is returned", where_ce)
     self_ref = ast.parse("self.fn_reference", mode="eval").body
     REF = ftext(bfa, self_ref, bfa.cfg.exit) if bek is None else ftext(bfa, self_ref, bek.node)
-    ok1 = False
-    if bek is not None:
-        s0 = is_copy_of(bek.value)
-        ok1 = s0 is not None and ftext(bfa, s0, bek.node) == REF + ".partial_kwargs"
-    ck.ob(R3, CE_Q + "::starts-from-partial-kwargs", ok1, "effective kwargs start from a copy of the partial kwargs" if ok1 else
-          "effective kwargs do not start from a copy of the reference's partial kwargs", where_ce)
+
+    def creation(v):
+        """how the expression that creates a mapping puts it together: (what it copies or None, [mappings merged
+        in after that, in order], something else goes in as well); None if `v` does not create a mapping"""
+        v = strip_cast(v)
+        src = is_copy_of(v)
+        if src is not None:
+            return (src, [], False)
+        if isinstance(v, ast.Dict):
+            base, merges, odd_ = None, [], False
+            for i, (k, x) in enumerate(zip(v.keys, v.values)):
+                if k is None and i == 0:
+                    base = x
+                elif k is None:
+                    merges.append(x)
+                else:
+                    odd_ = True
+            return (base, merges, odd_)
+        if isinstance(v, ast.Call) and isinstance(v.func, ast.Name) and v.func.id == "dict" and len(v.args) <= 1:
+            return (v.args[0] if v.args else None, [k.value for k in v.keywords if k.arg is None], any(k.arg is not None for k in v.keywords))
+        if isinstance(v, ast.BinOp) and isinstance(v.op, ast.BitOr):
+            l = creation(v.left) if isinstance(strip_cast(v.left), ast.BinOp) else None
+            return (l[0], l[1] + [v.right], l[2]) if l is not None else (v.left, [v.right], False)
+        return None
+
+    # the mapping may be built in stages: a mapping that is filled, then `{**that, **more}` ...; the stages, first one first
+    chain = [bek] if bek is not None else []
+    while chain and len(chain) < 5:
+        cr = creation(chain[0].value)
+        prev = origin(bfa, cr[0], chain[0].node) if cr is not None and cr[0] is not None and _ref_name(strip_cast(cr[0])) is not None else None
+        if prev is None or creation(prev.value) is None or any(same_def(prev, d_) for d_ in chain):
+            break
+        chain.insert(0, prev)
+    root_cr = creation(chain[0].value) if chain else None
+    ok1 = root_cr is not None and root_cr[0] is not None and ftext(bfa, root_cr[0], chain[0].node) == REF + ".partial_kwargs"
 
     def is_ek(e, at):
-        return bek is not None and same_def(origin(bfa, e, at), bek)
+        o_ = origin(bfa, e, at)
+        return any(same_def(o_, d_) for d_ in chain)
 
-    pos_bind = []   # (names expr, values expr, node, stmt)
-    kw_merge = []   # (source expr, node, stmt)
+    pos_bind = []   # (names expr, values expr, node, key)
+    kw_merge = []   # (source expr, node, key)
     odd = []
-    for (s, ids) in ek_muts:
-        at = ids[0]
+    contribs = []   # (node, key) of everything that goes into the mapping, and `order` of those that share a node
+    order = {}
+
+    def later(x, y):
+        """contribution y = (node, key) takes effect after contribution x"""
+        if x[0] == y[0]:
+            return order.get(id(y[1]), 0) > order.get(id(x[1]), 0)
+        return y[0] in bfa.cfg.reach([x[0]], include_start=False)
+
+    def classify_merge(a0, at, key, shown):
+        """a mapping poured into the result: names zipped with values (positional binding) or keyword arguments"""
+        a0 = strip_cast(a0)
+        if isinstance(a0, ast.Call) and A.call_attr(a0) == "dict" and len(a0.args) == 1 and not a0.keywords:
+            a0 = strip_cast(a0.args[0])
+        comp_ = a0 if isinstance(a0, ast.DictComp) and len(a0.generators) == 1 and not a0.generators[0].ifs else None
+        g_ = comp_.generators[0] if comp_ is not None else None
+        if g_ is not None and isinstance(g_.target, ast.Tuple) and len(g_.target.elts) == 2 and isinstance(strip_cast(g_.iter), ast.Call) \
+                and [A.norm(x) for x in g_.target.elts] == [A.norm(comp_.key), A.norm(comp_.value)] and all(isinstance(x, ast.Name) for x in g_.target.elts):
+            # {name: value for name, value in zip(names, values)} / {k: v for k, v in mapping.items()}
+            it_ = strip_cast(g_.iter)
+            if A.call_attr(it_) == "zip" and len(it_.args) == 2:
+                pos_bind.append((it_.args[0], it_.args[1], at, key))
+            elif A.call_attr(it_) == "items" and not it_.args and A.call_recv(it_) is not None:
+                kw_merge.append((A.call_recv(it_), at, key))
+            else:
+                odd.append((shown, ""))
+        elif isinstance(a0, ast.Call) and A.call_attr(a0) == "zip" and len(a0.args) == 2:
+            pos_bind.append((a0.args[0], a0.args[1], at, key))
+        else:
+            kw_merge.append((a0, at, key))
+
+    def classify_stmt(s, at):
         if isinstance(s, ast.Assign) and len(s.targets) == 1 and isinstance(s.targets[0], ast.Subscript):
             K, V = s.targets[0].slice, s.value
             loop = bfa.enclosing(s, (ast.For, ast.While))
@@ -592,24 +1129,56 @@ def check(ck):
                         done = True
             if not done:
                 odd.append((A.norm(s.targets[0]), A.norm(V)))
+        elif isinstance(s, ast.AugAssign) and isinstance(s.op, ast.BitOr) and not isinstance(s.target, ast.Subscript):
+            # result |= mapping
+            classify_merge(s.value, at, s, A.short(s, 60))
         elif isinstance(s, ast.Expr) and A.call_attr(s.value) == "update":
             c = s.value
-            a0 = strip_cast(c.args[0]) if len(c.args) == 1 and not c.keywords else None
-            if a0 is not None and isinstance(a0, ast.Call) and A.call_attr(a0) == "dict" and len(a0.args) == 1 and not a0.keywords:
-                a0 = a0.args[0]
-            if a0 is not None and isinstance(a0, ast.Call) and A.call_attr(a0) == "zip" and len(a0.args) == 2:
-                pos_bind.append((a0.args[0], a0.args[1], at, s))
-            elif a0 is not None:
-                kw_merge.append((a0, at, s))
+            if len(c.args) == 1 and not c.keywords:
+                classify_merge(c.args[0], at, s, A.norm(c))
             elif not c.args and len(c.keywords) == 1 and c.keywords[0].arg is None:
                 kw_merge.append((c.keywords[0].value, at, s))
             else:
                 odd.append((A.norm(c), ""))
         else:
             odd.append((A.short(s, 60), ""))
+
+    for ci, d_ in enumerate(chain):
+        cr = creation(d_.value)
+        if cr is not None:
+            if cr[2]:
+                odd.append((A.short(d_.value, 60), ""))
+            for li, x in enumerate(cr[1]):
+                order[id(x)] = li + 1
+                contribs.append((d_.node, x))
+                classify_merge(x, d_.node, x, A.short(x, 60))
+        nxt = chain[ci + 1].node if ci + 1 < len(chain) else None
+        for (s_, ids) in mutations(bfa, d_):
+            if nxt is not None and not any(nxt in bfa.cfg.reach([i]) for i in ids):
+                continue    # changes of an earlier stage after the next one was made from it do not reach the result
+            contribs.append((ids[0], s_))
+            classify_stmt(s_, ids[0])
+    if not ok1 and root_cr is not None and root_cr[0] is None:
+        # created empty and filled from the partial kwargs before anything else goes in
+        for m0 in kw_merge:
+            others = [c_ for c_ in contribs if c_[1] is not m0[2]]
+            if ftext(bfa, m0[0], m0[1]) == REF + ".partial_kwargs" and all(later((m0[1], m0[2]), c_) and not later(c_, (m0[1], m0[2])) for c_ in others) \
+                    and all(c_[0] == m0[1] or bfa.cfg.must_pass([m0[1]], c_[0]) for c_ in others):
+                ok1 = True
+                kw_merge = [m_ for m_ in kw_merge if m_ is not m0]
+                break
+    ck.ob(R3, CE_Q + "::starts-from-partial-kwargs", ok1, "effective kwargs start from a copy of the partial kwargs" if ok1 else
+          "effective kwargs do not start from a copy of the reference's partial kwargs", where_ce)
     self_args = ast.parse("self.args", mode="eval").body
     self_kwargs = ast.parse("self.kwargs", mode="eval").body
     pairs = set(odd)
+
+    def stext(e, at):
+        # the sequence an expression stands for, whatever order-preserving copy it is wrapped in (list(x), tuple(x))
+        x = strip_cast(fexpand(bfa, e, at))
+        while isinstance(x, ast.Call) and isinstance(x.func, ast.Name) and x.func.id in ("list", "tuple") and len(x.args) == 1 and not x.keywords:
+            x = strip_cast(x.args[0])
+        return A.norm(x)
     rem = None     # (names expression, node) of the binding of the call's positional arguments
     def unsliced(e):
         # a prefix of a sequence keeps its order: names[:n] binds like names
@@ -621,12 +1190,12 @@ def check(ck):
 
     pos_bind = [(unsliced(N), unsliced(S), at, s) for (N, S, at, s) in pos_bind]
     for (N, S, at, s) in pos_bind:
-        nt, vt = ftext(bfa, N, at), ftext(bfa, S, at)
-        if vt == ftext(bfa, self_args, at):
+        nt, vt = stext(N, at), stext(S, at)
+        if vt == stext(self_args, at):
             rem = (N, at, s)
             nt = "<remaining>"
         pairs.add((nt, vt))
-    ok2 = rem is not None and pairs == {(REF + ".parameter_names", REF + ".partial_args"), ("<remaining>", ftext(bfa, self_args, rem[1]))}
+    ok2 = rem is not None and pairs == {(REF + ".parameter_names", REF + ".partial_args"), ("<remaining>", stext(self_args, rem[1]))}
     ck.ob(R3, CE_Q + "::positional-by-name", ok2, "partial and positional args are bound to parameter names in order" if ok2 else
           "positional arguments are not bound as result[names[i]] = values[i]: %s" % sorted(pairs), where_ce)
     # the names the call's positional arguments go to: the parameters not yet bound, in signature order
@@ -638,20 +1207,39 @@ def check(ck):
         while isinstance(comp, ast.Call) and isinstance(comp.func, ast.Name) and comp.func.id in ("list", "tuple") and len(comp.args) == 1 and not comp.keywords:
             comp = strip_cast(comp.args[0])
 
+        snap_nodes = []   # where the set of names bound so far is taken, when that is not the test itself
+
         def unbound_test(test, tv, at_):
             e, pol = lit_expr(A.norm(test), True)
             if not (isinstance(e, ast.Compare) and len(e.ops) == 1 and isinstance(e.ops[0], ast.In) and not pol and A.norm(e.left) == tv):
                 return False
-            r = e.comparators[0]
-            if isinstance(r, ast.Call) and A.call_attr(r) == "keys" and not r.args:
-                r = A.call_recv(r)
-            return _ref_name(r) is not None and is_ek(r, at_)
+
+            def keys_of(r):
+                # the mapping whose keys `r` is: m / m.keys() / set(m) / frozenset(m.keys()) / list(m) ...
+                r = strip_cast(r)
+                if isinstance(r, ast.Call) and A.call_attr(r) == "keys" and not r.args and A.call_recv(r) is not None:
+                    return keys_of(A.call_recv(r))
+                if isinstance(r, ast.Call) and isinstance(r.func, ast.Name) and r.func.id in ("set", "frozenset", "list", "tuple") and len(r.args) == 1 and not r.keywords:
+                    return keys_of(r.args[0])
+                return r
+
+            r = keys_of(e.comparators[0])
+            if _ref_name(r) is not None and is_ek(r, at_):
+                return True
+            # a snapshot of the bound names taken earlier (`bound = set(result)`)
+            d_ = single_def(bfa, _ref_name(r), at_) if _ref_name(r) is not None else None
+            if d_ is not None:
+                r2 = keys_of(d_.value)
+                if r2 is not strip_cast(d_.value) and _ref_name(r2) is not None and is_ek(r2, d_.node):
+                    snap_nodes.append(d_.node)
+                    return True
+            return False
 
         part_nodes = [at_ for (N_, S_, at_, s_) in pos_bind if s_ is not s_args]
         if isinstance(comp, (ast.ListComp, ast.GeneratorExp)) and len(comp.generators) == 1 and isinstance(comp.generators[0].target, ast.Name):
             g_ = comp.generators[0]
             tv = g_.target.id
-            ok3 = A.norm(comp.elt) == tv and ftext(bfa, g_.iter, cat) == REF + ".parameter_names" and len(g_.ifs) == 1 and unbound_test(g_.ifs[0], tv, cat)
+            ok3 = A.norm(comp.elt) == tv and stext(g_.iter, cat) == REF + ".parameter_names" and len(g_.ifs) == 1 and unbound_test(g_.ifs[0], tv, cat)
         elif rd is not None and A.norm(comp) in ("[]", "list()"):
             # for name in parameter_names: if name not in result: remaining.append(name)
             apps = [c for c in bfa.calls("append") if bfa.nodes(c) and A.call_recv(c) is not None and same_def(origin(bfa, A.call_recv(c), bfa.nodes(c)[0]), rd)]
@@ -662,17 +1250,18 @@ def check(ck):
                 gi = bfa.enclosing(st, ast.If)
                 ok3 = isinstance(loop, ast.For) and isinstance(loop.target, ast.Name) and loop.target.id == tv and not loop.orelse \
                     and A.sig_stmts(loop.body) == [gi] and gi is not None and not gi.orelse and A.sig_stmts(gi.body) == [st] \
-                    and ftext(bfa, loop.iter, bfa.nodes(st)[0]) == REF + ".parameter_names" and unbound_test(gi.test, tv, bfa.nodes(st)[0])
+                    and stext(loop.iter, bfa.nodes(st)[0]) == REF + ".parameter_names" and unbound_test(gi.test, tv, bfa.nodes(st)[0])
                 cat = bfa.nodes(st)[0]
         # taken after the partial arguments are bound
-        ok3 = ok3 and not any(pn in bfa.cfg.reach([cat], include_start=False) for pn in part_nodes if pn != cat)
+        ok3 = ok3 and not any(pn in bfa.cfg.reach([c_], include_start=False) for c_ in [cat] + snap_nodes for pn in part_nodes if pn != c_)
+        # (a stage made by one expression takes the names before it binds anything: `{**bound, **dict(zip(free, args))}`)
     ck.ob(R3, CE_Q + "::remaining-names", ok3, "positional args fill the parameters not yet bound, in order" if ok3 else
           "remaining parameter names are not [name for name in parameter_names if name not in result]", where_ce)
     ok4 = len(kw_merge) == 1 and ftext(bfa, kw_merge[0][0], kw_merge[0][1]) == ftext(bfa, self_kwargs, kw_merge[0][1])
     if ok4:
         # kwargs are applied last: no positional binding after the merge
-        after = bfa.cfg.reach(bfa.nodes(kw_merge[0][2]), include_start=False)
-        ok4 = not any(at_ in after for (N_, S_, at_, s_) in pos_bind) and not odd
+        kw_ = (kw_merge[0][1], kw_merge[0][2])
+        ok4 = not any(later(kw_, (at_, s_)) for (N_, S_, at_, s_) in pos_bind) and not odd
     ck.ob(R3, CE_Q + "::kwargs-last", ok4, "keyword arguments are applied last" if ok4 else
           "keyword arguments are not merged last with result.update(self.kwargs)", where_ce)
     fr = FA(ck, "reference.FunctionReference.__init__")
@@ -694,21 +1283,34 @@ def check(ck):
               % A.short(rebinds[0], 60), f_.where(rebinds[0] if rebinds else None))
     pa = FA(ck, "base.MementoFunctionBase.partial")
     # containers that partial() mutates are fresh copies, never aliases of the parent reference's state
+    cw = [c for c in pa.calls("clone_with") if pa.nodes(c)]
+    varg = pa.fi.node.args.vararg.arg if pa.fi.node.args.vararg else None
+    kwarg_ = pa.fi.node.args.kwarg.arg if pa.fi.node.args.kwarg else None
+    # the states in which the clone is made, per path class (what was changed in place on the way is part of them)
+    at_clone = None
+    if len(cw) == 1 and varg is not None and kwarg_ is not None:
+        at_clone = []
+        pc_ = PathComposition(pa, {varg: ("seq", ("<new positional>",)), kwarg_: ("newmap", ("<new keyword>",))})
+        for i in pa.nodes(cw[0]):
+            r_ = pc_.at(i, [])
+            at_clone = None if (r_ is None or at_clone is None) else at_clone + [st_ for (_v, st_) in r_]
     for c in pa.calls():
         if A.call_attr(c) in ("update", "append", "extend", "setdefault", "insert") and isinstance(A.call_recv(c), ast.Name):
             nm = A.call_recv(c).id
+            st_c = pa.stmt_of(c)
+            # decided on the paths to the clone when the change lies on them: the receiver is a mapping of the function's own
+            on_paths = at_clone is not None and bool(pa.nodes(c)) and all(set(pa.nodes(cw[0])) & pa.cfg.reach([i]) for i in pa.nodes(c))
             for i in pa.nodes(c):
                 for d in pa.df.reaching(i, nm):
                     v = d.value
                     fresh = isinstance(v, (ast.Dict, ast.List, ast.DictComp, ast.ListComp)) or \
                         (isinstance(v, ast.Call) and A.call_attr(v) in ("dict", "list", "copy", "deepcopy")) or \
                         (isinstance(v, ast.IfExp) and all(isinstance(x, (ast.Dict, ast.List)) or (isinstance(x, ast.Call) and A.call_attr(x) in ("dict", "list", "copy")) for x in (v.body, v.orelse)))
+                    if not fresh and on_paths and isinstance(st_c, ast.Expr) and st_c.value is c and A.call_attr(c) in PathComposition.MUTATORS:
+                        fresh = not any(f_[2] is st_c for st_ in at_clone for f_ in st_.flaws)
                     ck.ob(R3, pa.key(c, "mutates-fresh-copy:" + nm), fresh, "%s is a fresh copy before it is updated" % nm if fresh else
                           "`%s` updates `%s`, which can be the parent reference's own dict (`%s`): deriving a second partial silently changes the key "
                           "and the bound arguments of the first" % (A.short(c, 40), nm, A.short(v, 50)), pa.where(c))
-    cw = [c for c in pa.calls("clone_with") if pa.nodes(c)]
-    varg = pa.fi.node.args.vararg.arg if pa.fi.node.args.vararg else None
-    kwarg_ = pa.fi.node.args.kwarg.arg if pa.fi.node.args.kwarg else None
     okpa = len(cw) == 1 and A.kwarg(cw[0], "partial_args") is not None and A.kwarg(cw[0], "partial_kwargs") is not None and varg is not None and kwarg_ is not None
     if okpa:
         at = pa.nodes(cw[0])[0]
@@ -746,6 +1348,8 @@ def check(ck):
             elif isinstance(e, ast.Call) and isinstance(e.func, ast.Name) and e.func.id == "dict" and len(e.args) == 1 and len(e.keywords) == 1 and e.keywords[0].arg is None:
                 okk_ = _existing_or_empty(e.args[0], XK) and A.norm(e.keywords[0].value) == kwarg_
         okpa = oka_ and okk_
+        if not okpa:
+            okpa = _partial_accumulates(pa, cw[0], va_, vk_, varg, kwarg_, XA, XK)
     ck.ob(R3, pa.key(None, "accumulates"), okpa, "partial() appends positional and updates keyword partials on a clone" if okpa else
           "partial() no longer accumulates (existing partials + new ones) into the clone", pa.where())
     ck.run(check_typed_identity, ck, "C04.R4", ("reference", "base"))
